@@ -81,6 +81,12 @@ def make_spy_store(yield_fn, fail_at=None, fail_type=None):
             self.recs[r.id] = r
             return r
 
+        def save_recording(self, recording):
+            # this storage extends the PUBLIC save (it stamps what it stores and counts): whoever saves through it gets that
+            self.public_saves = getattr(self, 'public_saves', 0) + 1
+            recording.recording_metadata['stamped_by_the_store'] = 2
+            return TapeCassette.save_recording(self, recording)
+
         def _save_recording(self, recording):
             self._storage_call(('save', recording.id), lambda: self.saved.__setitem__(recording.id, (dict(recording.recording_data), dict(recording.recording_metadata))))
 
@@ -572,6 +578,29 @@ def clock_jump_during_close(ctx):
     judge(ctx, w, store, None, [], getattr(store, 'closed_with', None), {'clock_jump_during_close': True, 'workload': w, 'fail_at': None}, None)
 
 
+def flush_only_on_close(ctx):
+    """flush_interval=None: nothing is flushed periodically, everything when the cassette is closed."""
+    from playback.tape_cassettes.asynchronous.async_record_only_tape_cassette import AsyncRecordOnlyTapeCassette
+    for interval in (None, 0, 0.0):
+        store = make_spy_store(lambda: None)
+        w = {'producers': 1, 'recordings': 2, 'writes': 3}
+        wit = {'flush_only_on_close': True, 'flush_interval': interval, 'workload': w, 'fail_at': None}
+        try:
+            cas = AsyncRecordOnlyTapeCassette(store, flush_interval=interval, timeout_on_close=60)
+            cas.start()
+            time.sleep(0.05)
+            recs = {}
+            for ops in workload_ops(w):
+                run_producer(cas, ops, recs)
+            cas.close()
+        except Exception as ex:
+            ctx.violation('recording through an asynchronous cassette with flush_interval=%r raised %s' % (interval, type(ex).__name__), wit)
+            continue
+        ctx.case(('flush_only_on_close', interval), nontrivial=True)
+        ctx.count('runs_with_flush_interval_none_or_zero')
+        judge(ctx, w, store, None, [], getattr(store, 'closed_with', None), wit, None)
+
+
 def idle_start_then_clock_jump(ctx):
     """The asynchronous cassette is started and stays idle; the wall clock moves on by three days (a long quiet week-end, or a clock step);
     then recordings are made. Whatever the flusher thread does periodically must survive a long stretch in which nothing was flushed."""
@@ -755,6 +784,7 @@ def run(ctx):
         backlog(ctx, 2 if ctx.quick else 12)
         clock_jump_during_close(ctx)
         idle_start_then_clock_jump(ctx)
+        flush_only_on_close(ctx)
         steady_pace(ctx, 1300 if ctx.quick else 2500)
         none_timeout.finish()
     if not ctx.counters.get('operations_checked'):
@@ -762,6 +792,8 @@ def run(ctx):
 
 
 def replay(ctx, wit):
+    if wit.get('flush_only_on_close'):
+        return flush_only_on_close(ctx)
     if wit.get('idle_start_then_clock_jump'):
         return idle_start_then_clock_jump(ctx)
     if wit.get('none_timeout_on_close'):
